@@ -78,8 +78,47 @@ than `img.length < 2^63`:
                             `TQ.runQuery o (.relGet | .arrGet | .versymGet …)` (the null-data guards of the C18 fixes
                             are false on a ready file-occupying section: `tq_relGet_eq`)
      section_query_keeps_segs   the section queries leave the segments alone (so `SegsFrom` survives them)
-   NOT done: modinfo, verneed/verdef, by-name/by-value symbol lookup, hash tables, relocation get_entry with symbol
-   resolution (their family theorems apply to the `SecReady` section in the same way); notes are characterised by
+   Part 2 (Props/ComposeTables2.lean, Lemmas/LoadedTables2.lean; same state `LoadedFrom img o`, every theorem returns
+   `LoadedFrom` and "segments untouched" for the object it leaves; examples on the 712-byte image `exImg2` with a SysV
+   hash section, `.modinfo`, `.gnu.version_r/_d`, a REL table linked to `.symtab`):
+     LoadedTables.findHash_eq / symTabFor_wf   `find_hash_section()` on the loaded object = `hashIdx img i` (first section
+                            header whose sh_link is i and whose type is SHT_HASH / SHT_GNU_HASH / 0x6ffffef5; 0 = none);
+                            `symbol_section_accessor(elf, sections[i])` as C18's query model builds it (`TQ.symTabFor`:
+                            symbol, linked string and hash section made resident) is a table the C09 readers can read
+                            (`SymTab.Wf`) over the image's bytes, its hash section is the ready section `hashIdx img i`
+     byvalue_reports_spec   [symbol table as in symbols_reports_spec] TQ.runQuery(.symByValue i v) = `specByValue`: the
+                            FIRST record whose st_value is v (Spec.lookupValue over the decoded records), its name and
+                            attributes; false with the out-parameters untouched when there is none; every 64-bit v
+     byname_reports_spec    [+ `ValidNames` (every st_name leads to a terminated string; decidable) and img < 4 GiB]
+                            the code AS IT IS after fixes/11-13 (TQ.runQuery(.symByName i name): guarded SysV / GNU walks
+                            over WHATEVER the hash section holds, then the linear fallback) RETURNS for every name and
+                            answers like the linear scan (`ByNameSpec`: found iff Spec.lookupName finds the name; the
+                            attributes are those of an entry of that name, the first one's when the name is unique).
+                            New lemmas `LoadedTables.TQSound.{sysvLoop_symAt,hashLookup_sound,gnuLoop_sound,gnuLookup_sound,
+                            hashPhase_sound,lookup_name}`: soundness of the FIXED walks (C09 has it for the unguarded ones)
+     byname_model_reports_spec   the same for C09's accessor model `SymTab.getByName` (walks without the C18 guards) on the
+                            accessor `TQ.symTabFor` builds: (a) whenever it returns, `ByNameSpec` - through ANY hash section
+                            (C09.lookup_name); (b) it returns when there is no hash section or a well-formed one
+                            (`HashSecOk`: C09's SysvWf / GnuWf on the hash section's file bytes, explicit hypothesis;
+                            C09.lookup_name_wellformed)
+     modinfo_reports_spec   [occupies file; file bytes = Spec.encodeModinfo as with `Spec.AttrOk` attributes; decidable]
+                            inspect(.modinfo i) = as (= Spec.parseModinfo of the file bytes), get_attribute(k) = as[k]?
+                            for every 32-bit k, get_attribute(field) = Spec.lookupFirst as field for every name
+     verneed_reports_spec / verdef_reports_spec   [occupies file; sh_link (full 32 bits) names a file-occupying section]
+                            for EVERY cached count `num` (DT_VERNEEDNUM / DT_VERDEFNUM) and every 32-bit no:
+                            C14's Verneed/Verdef.getEntry on the two sections handed out = none for no >= num, and for
+                            no < num exactly `Spec.needView` / `Spec.defView` of the FILE BYTES of the section and of the
+                            linked string table whenever that reference reader succeeds
+     reloc_resolved_reports_spec   [relocation section as in reloc_reports_spec whose (Elf_Half)sh_link names a symbol table
+                            as in symbols_reports_spec] TQ.runQuery(.relGetResolved i k) = `resolvedOf r (specSymbol img
+                            (linkIdx img i))` with r.map toSpec = specReloc img i k: the composition of reloc_reports_spec
+                            and symbols_reports_spec (offset, type, addend from the record; symbol value and name from
+                            symbol r_sym of the linked table; calcValue = the accessor's i386 switch `TQ.relCalc`, only
+                            when the symbol exists; a symbol index beyond the table: false, value/name/calcValue untouched)
+     reloc_resolved_nosymtab   [(Elf_Half)sh_link names no section] false for every k, offset/type/addend from the record
+   NOT done: verneed/verdef through C18's guarded `TQ.needGet/defGet` (the fix refuses vn_next = 0 inside a chain, which the
+   reference reader follows: the two are not equal on all inputs the reader accepts) and the DT_VER*NUM constructor scan
+   (`TQ.dynNum`); by-name through `TQ` needs img < 4 GiB (C18's `Small`); notes are characterised by
    "bytes = encodeNotes ns" (no decoder-side characterisation: a malformed note section is C13.get_note_total / C01).
  * not covered by proof (correspondence only): that Model/IStream.lean is libstdc++ and that
    Model/Load.lean is ELFIO's loader (differential check below); images with an address
@@ -116,8 +155,15 @@ THEOREMS = ["ElfioVerif.C02.layouts_eq_spec", "ElfioVerif.C02.shdr_fields_eq_spe
             "ElfioVerif.ComposeTables.reloc_reports_spec", "ElfioVerif.ComposeTables.dynamic_reports_spec",
             "ElfioVerif.ComposeTables.notes_reports_spec", "ElfioVerif.ComposeTables.segment_notes_reports_spec",
             "ElfioVerif.ComposeTables.array_reports_spec", "ElfioVerif.ComposeTables.versym_reports_spec",
-            "ElfioVerif.ComposeTables.tq_relGet_eq", "ElfioVerif.ComposeTables.tq_reports_spec"]
-EXTRA_IMPORTS = ["ElfioVerif.Props.Compose", "ElfioVerif.Props.ComposeTables"]
+            "ElfioVerif.ComposeTables.tq_relGet_eq", "ElfioVerif.ComposeTables.tq_reports_spec",
+            "ElfioVerif.LoadedTables.findHash_eq", "ElfioVerif.LoadedTables.symTabFor_wf",
+            "ElfioVerif.LoadedTables.TQSound.hashPhase_sound", "ElfioVerif.LoadedTables.TQSound.lookup_name",
+            "ElfioVerif.ComposeTables.byvalue_reports_spec", "ElfioVerif.ComposeTables.byname_reports_spec",
+            "ElfioVerif.ComposeTables.byname_model_reports_spec", "ElfioVerif.ComposeTables.modinfo_reports_spec",
+            "ElfioVerif.ComposeTables.verneed_reports_spec", "ElfioVerif.ComposeTables.verdef_reports_spec",
+            "ElfioVerif.ComposeTables.tq_relGet_core", "ElfioVerif.ComposeTables.reloc_resolved_reports_spec",
+            "ElfioVerif.ComposeTables.reloc_resolved_nosymtab"]
+EXTRA_IMPORTS = ["ElfioVerif.Props.Compose", "ElfioVerif.Props.ComposeTables", "ElfioVerif.Props.ComposeTables2"]
 SITES = ["conv", "is_sect_in_seg", "load_s", "sec32_load", "sec64_load", "seg32_load", "seg64_load", "seg32_range", "seg64_range"]
 RULE = ("well-formed images from the independent encoder tools/elfspec.py (random models: 1-9 sections, 0-4 "
         "segments, full-width field values, arbitrary table placement/order/gaps, overlapping segments, entry "
